@@ -53,12 +53,12 @@ CLAIMS = {
         text='Off => source order (no other reordering operation on nodes exists); on => a permutation gated on flag, no comment anywhere among the children of the import, no duplicate bound names; nothing else reads the flag. Found and repaired F14.',
         design_ref='DESIGN.md §2 C19'),
     'C11': dict(
-        technique='provenance of every Ok payload + shape check of the post-processing loop over MIR (must-pass-through, single-exit loop)',
+        technique='provenance of every Ok payload + shape check of the post-processing loop over MIR (must-pass-through, single-exit loop); guarded-by rule for the CLI\'s changed / unchanged test',
         text='Complete structural argument under the contracts of str::lines/str::trim_end: every accepted input is returned through a post-processor that '
              'appends trim_end(line)+LF per line and returns "\\n" for empty input; tests can only sample inputs.',
         design_ref='DESIGN.md §2 C11'),
     'C12': dict(
-        technique='provenance of every nest amount, who-may-call for column combinators, forward taint of Config.tab_spaces, writer inventory, sequence evaluation of the pass that marks format-disabled (verbatim) nodes',
+        technique='provenance of every nest amount, who-may-call for column combinators, forward taint of Config.tab_spaces, writer inventory, sequence evaluation of the pass that marks format-disabled (verbatim) nodes and of the flow helper with line comments (no blank after a hard break)',
         text='Complete under the renderer contract: every indentation step is the configured unit and the unit never reaches a comparison, switch or arithmetic, '
              'so the number of steps cannot depend on it. Quantifies over all code paths instead of sampled inputs/units.',
         design_ref='DESIGN.md §2 C12'),
@@ -71,11 +71,11 @@ CLAIMS = {
         text='Structural argument: what is written is the library result for the option mapping, to the path that was read, by the one file-mutating callee, only on the changed edge, only for eligible entries (regular file by the walker\'s own file type, .typ, not hidden, root exempt); every I/O Result in a batch loop reaches a counter whose zero test every Ok return lies behind. Found and repaired F5/F6 (see known_findings.json).',
         design_ref='DESIGN.md §2 C15'),
     'C16': dict(
-        technique='straight-line field evaluation of the option mapping, who-may-call funnel, format_args! template constant inspection, who-may-write-stdout with confinement of info-level logging, pre-expansion AST of the wasm export',
+        technique='straight-line field evaluation of the option mapping, who-may-call funnel, format_args! template constant inspection, who-may-write-stdout with confinement of info-level logging, pre-expansion AST of the wasm export, guarded-by rule for the changed / unchanged test, single-exit batch loops',
         text='Option plumbing, funnelling into one render entry, the byte-exact print idiom and the absence of any other stdout writer in stdout-output mode are decided on every path; clap parsing is trusted.',
         design_ref='DESIGN.md §2 C16'),
     'C17': dict(
-        technique='effect analysis over the resolved MIR call graph (who-may-call incl. the global-state functions of the dependencies, no shared state, no hash-order iteration); who-may-write-stdout and print idiom of the CLI',
+        technique='effect analysis over the resolved MIR call graph (who-may-call incl. the global-state functions of the dependencies, no shared state, no hash-order iteration); who-may-write-stdout and print idiom of the CLI; single-exit batch loops (inputs of one run do not affect each other)',
         text='Structural proof obligations over the MIR of /repo: the effect closure of typstyle-core\'s public API is free of ambient authority, '
              'shared mutable state and hash-order iteration; per-call state; Send+Sync. For schedules/histories this is the complete argument '
              'available short of verifying the dependencies; a runtime test can only sample interleavings.',
